@@ -122,6 +122,18 @@ theorem strIncr_soft {db k d now e} (hs : Soft e) (h : (strIncr db k d now).out 
       exact absurd hs (strUpdateTx_err (by rw [he]))
     · cases h
 
+theorem strIncrFloat_soft {db k d now e} (hs : Soft e) (h : (strIncrFloat db k d now).out = .error e) :
+    (strIncrFloat db k d now).db = db := by
+  revert h; unfold strIncrFloat; dsimp only; split
+  · intro _; rfl
+  · intro _; rfl
+  · split
+    · split <;> intro _ <;> rfl
+    · split <;> intro h
+      · rename_i e' d he; cases h
+        exact absurd hs (strUpdateTx_err (by rw [he]))
+      · cases h
+
 theorem strSetMany_soft {db items now e} (hs : Soft e) (h : (strSetMany db items now).out = .error e) :
     (strSetMany db items now).db = db := by
   exfalso
@@ -440,6 +452,10 @@ theorem hashIncr_err {db k f d now e} (h : (hashIncr db k f d now).out = .error 
     (hashIncr db k f d now).db = db := by
   revert h; unfold hashIncr; dsimp only; (repeat' (first | split | dsimp only)) <;> intro h <;> first | rfl | cases h
 
+theorem hashIncrFloat_err {db k f d now e} (h : (hashIncrFloat db k f d now).out = .error e) :
+    (hashIncrFloat db k f d now).db = db := by
+  revert h; unfold hashIncrFloat; dsimp only; (repeat' (first | split | dsimp only)) <;> intro h <;> first | rfl | cases h
+
 /-! sorted sets -/
 
 theorem zAdd_err {db k el s now e} (h : (zAdd db k el s now).out = .error e) :
@@ -587,7 +603,7 @@ theorem soft_error_notrace {op : Op} {now : Int} {db : DB} {e : Err} (hs : Soft 
   | strGet _ => exact read_notrace true _ now db rfl
   | strGetMany _ => exact read_notrace true _ now db rfl
   | strIncr _ _ => exact strIncr_soft hs he
-  | strIncrFloat _ _ => exact rfl
+  | strIncrFloat _ _ => exact strIncrFloat_soft hs he
   | strSet _ _ => exact strSet_soft hs he
   | strSetExpires _ _ _ => exact strSet_soft hs he
   | strSetMany _ => exact strSetMany_soft hs he
@@ -643,7 +659,7 @@ theorem soft_error_notrace {op : Op} {now : Int} {db : DB} {e : Err} (hs : Soft 
   | hashGet _ _ => exact read_notrace true _ now db rfl
   | hashGetMany _ _ => exact read_notrace true _ now db rfl
   | hashIncr _ _ _ => exact hashIncr_err he
-  | hashIncrFloat _ _ _ => exact rfl
+  | hashIncrFloat _ _ _ => exact hashIncrFloat_err he
   | hashItems _ => exact read_notrace true _ now db rfl
   | hashLen _ => exact read_notrace true _ now db rfl
   | hashScan _ _ _ _ => exact read_notrace true _ now db rfl
